@@ -74,6 +74,9 @@ class Work:
                 open(os.path.join(hdir, "go.mod"), "w").write(gm)
         shutil.copyfile(os.path.join(REPO, "go.sum"), os.path.join(hdir, "go.sum"))
         args = ["build", "-tags", "verif"] + (["-race"] if race else []) + ["-o", out, "./cmd/rsverif"]
+        if os.environ.get("VERIF_COVER"):
+            # tools/cover.sh: statement coverage of /repo's packages under a check (which code does no scenario reach?)
+            args[1:1] = ["-cover", "-coverpkg=github.com/gokrazy/rsync/..."]
         attempts = [(["go"], self.goenv())]
         e2 = self.goenv()
         e2["GOTOOLCHAIN"] = "local"
@@ -109,6 +112,8 @@ class Work:
         env["TMPDIR"] = self.scratch
         if extra_env:
             env.update(extra_env)
+        if os.environ.get("VERIF_COVER"):
+            env["GOCOVERDIR"] = os.environ["VERIF_COVER"]
         cmd = [binary or self.bin, "run", kind, "-in", scen, "-out", out, "-workers", str(workers or NCPU)]
         if case_timeout:
             cmd += ["-timeout", "%ds" % case_timeout]
